@@ -23,10 +23,18 @@ Interaction classes need:
           if ...: return ...
   is `retry_loop N 0 (fun it => let '(a, b) := sec it x i in ...)`, where the new parameter
   `sec : nat -> R -> Z -> R * R` is "the result of the it-th call of
-  _choose_secondary_fractions" (hand model: Model/Secondaries.v).  The function can fall off
+  _choose_secondary_fractions" (instantiated in the proofs with the translated function).  The function can fall off
   its end (Python None): its result type is `option (option T)` -- None: raises,
   Some None: returns None, Some (Some v): returns v.
-* np.random.rand() draws are fresh parameters u1 u2 ... (py2coq).
+* functions with data-dependent `for` loops (_choose_secondary_fractions) are translated in stream
+  mode: np.random.rand() / np.random.poisson(lam) take the next element of the parameters
+  `us : list R` / `ns : list Z` (draw / draw_poisson, dynamic order; a draw must be the whole
+  right-hand side of an assignment); `for _ in range(n): body` (no return/break/continue) is
+  `for_range (Z.to_nat n) (fun '(carried, ns, us) => body) (carried, ns, us)`; module-level tables
+  `_int_*[i]`, `_y_cum_*[i]` are fields of the parameter record SecTables; string constants and
+  `==` on them are Coq strings; np.interp(x, xp, np.linspace(0, 1, len(xp))) is np_interp_last /
+  linspace01.
+* elsewhere np.random.rand() draws are fresh parameters u1 u2 ... (py2coq).
 Everything else raises TranslationError (fail-closed).
 """
 import ast
